@@ -328,6 +328,13 @@ func (c *C20) Run(x *engine.Ctx) *engine.Violation {
 		for i := 0; i < n; i++ {
 			r := pickRequest(t, gen, [6]int{2, 2, 1, 3, 1, 4})
 			cc := &service.ClientConn{Addr: service.ProverAddr, Reqs: []*service.Request{r}, Frag: t.Draw(4), StartStep: 55 + t.Draw(80), CutAt: -1, Cycle: cyc}
+			if len(w.Knobs) > 0 {
+				// harness limit, stated: with a timeout knob set, a timeout answer racing a half-received body makes
+				// net/http wait on the request body's mutex, a block testing/synctest does not count as durable - the
+				// fake clock could never move again (the stall monitor would end the run with exit 2). Knob runs
+				// therefore deliver each request in one piece; the clock jump then finds handlers parked at yields.
+				cc.Frag = 0
+			}
 			if faulty && t.Chance(1, 3) {
 				cc.LeaveBeforeResponse = true
 				x.S.Count("fault:net/leave-before-response")
